@@ -711,49 +711,52 @@ func conformDiff(t, k *m.TNode) string {
 	return ""
 }
 
-// typeWellFormed walks a type through its public accessors.
-func typeWellFormed(t cty.Type, allowOptional bool, path string) string {
+// typeWellFormed walks a type through its public accessors. The position of a
+// problem is reported by depth only (a path string per level would be quadratic
+// on the deep-nesting class).
+func typeWellFormed(t cty.Type, allowOptional bool, depth int) string {
+	at := func(msg string) string { return fmt.Sprintf("at depth %d: %s", depth, msg) }
 	switch {
 	case t == cty.NilType:
-		return path + ": NilType"
+		return at("NilType")
 	case t == cty.Bool, t == cty.Number, t == cty.String, t == cty.DynamicPseudoType:
 		return ""
 	case t.IsListType(), t.IsSetType(), t.IsMapType():
-		return typeWellFormed(t.ElementType(), allowOptional, path+".elem")
+		return typeWellFormed(t.ElementType(), allowOptional, depth+1)
 	case t.IsTupleType():
-		for i, et := range t.TupleElementTypes() {
-			if r := typeWellFormed(et, allowOptional, fmt.Sprintf("%s[%d]", path, i)); r != "" {
+		for _, et := range t.TupleElementTypes() {
+			if r := typeWellFormed(et, allowOptional, depth+1); r != "" {
 				return r
 			}
 		}
 		return ""
 	case t.IsObjectType():
 		ats := t.AttributeTypes()
-		for n, at := range ats {
+		for n, aty := range ats {
 			if !isNFC(n) {
-				return fmt.Sprintf("%s: attribute name %q is not NFC-normalized", path, n)
+				return at(fmt.Sprintf("attribute name %q is not NFC-normalized", n))
 			}
 			if !t.HasAttribute(n) {
-				return fmt.Sprintf("%s: HasAttribute(%q) is false for a listed attribute", path, n)
+				return at(fmt.Sprintf("HasAttribute(%q) is false for a listed attribute", n))
 			}
-			if r := typeWellFormed(at, allowOptional, path+"."+n); r != "" {
+			if r := typeWellFormed(aty, allowOptional, depth+1); r != "" {
 				return r
 			}
 		}
 		opt := t.OptionalAttributes()
 		if len(opt) > 0 && !allowOptional {
-			return path + ": object type carries optional attributes"
+			return at("object type carries optional attributes")
 		}
 		for n := range opt {
 			if _, ok := ats[n]; !ok {
-				return fmt.Sprintf("%s: optional attribute %q is not declared", path, n)
+				return at(fmt.Sprintf("optional attribute %q is not declared", n))
 			}
 		}
 		return ""
 	case t.IsCapsuleType():
 		return ""
 	}
-	return path + ": unsupported type implementation"
+	return at("unsupported type implementation")
 }
 
 func (e *executor) checkErr(site string, tc *tcase, err error) {
@@ -825,9 +828,11 @@ func (e *executor) checkType(site string, tc *tcase, t cty.Type, allowOptional b
 		return
 	}
 	g := guard(func() {
-		bad := typeWellFormed(t, allowOptional, "")
+		bad := typeWellFormed(t, allowOptional, 0)
 		if bad == "" {
-			_ = t.GoString()
+			if tc.class != "deep" {
+				_ = t.GoString()
+			}
 			_ = t.FriendlyName()
 			if !t.Equals(t) {
 				bad = "type is not equal to itself"
@@ -861,7 +866,7 @@ func (e *executor) runCase(idx int64, tc *tcase, fam int) {
 	in := tc.input
 
 	if fam&famJSON != 0 {
-		deepBudget := tc.class != "deep" || int64(tc.depth)*int64(len(in)) <= 20_000_000
+		deepBudget := tc.class != "deep" || int64(tc.depth)*int64(len(in)) <= jsonDeepBudget(!c.Quick())
 		for i, ty := range tc.targets {
 			ty := ty
 			var v cty.Value
